@@ -27,12 +27,21 @@ Definition value_eqb (a b : value) : bool :=
 Definition is_stale_float (v : value) : bool :=
   match v with VF b => b =? staleBits | _ => false end.
 
-(* sampleType (custom-bucket variants are not modelled) *)
-Inductive stype := TFloat | THist | TFHist.
+(* sampleType: stFloat, stHistogram, stFloatHistogram, stCustomBucketHistogram,
+   stCustomBucketFloatHistogram.  A histogram identifier < 0 stands for a histogram with custom
+   buckets (NHCB); h.UsesCustomBuckets() is the sign test. *)
+Inductive stype := TFloat | THist | TFHist | TCHist | TCFHist.
 Definition stype_eqb (a b : stype) : bool :=
-  match a, b with TFloat, TFloat | THist, THist | TFHist, TFHist => true | _, _ => false end.
+  match a, b with
+  | TFloat, TFloat | THist, THist | TFHist, TFHist | TCHist, TCHist | TCFHist, TCFHist => true
+  | _, _ => false
+  end.
 Definition stype_of (v : value) : stype :=
-  match v with VF _ => TFloat | VH _ => THist | VFH _ => TFHist end.
+  match v with
+  | VF _ => TFloat
+  | VH i => if i <? 0 then TCHist else THist
+  | VFH i => if i <? 0 then TCFHist else TFHist
+  end.
 
 Inductive aerr := EOOB | EOOO | ETooOld | EDup.
 
@@ -160,8 +169,8 @@ Definition batch0 := mkBatch [] [] [].
 Definition push (b : batch) (e : entry) : batch :=
   match stype_of (e_val e) with
   | TFloat => mkBatch (b_f b ++ [e]) (b_h b) (b_fh b)
-  | THist => mkBatch (b_f b) (b_h b ++ [e]) (b_fh b)
-  | TFHist => mkBatch (b_f b) (b_h b) (b_fh b ++ [e])
+  | THist | TCHist => mkBatch (b_f b) (b_h b ++ [e]) (b_fh b)
+  | TFHist | TCFHist => mkBatch (b_f b) (b_h b) (b_fh b ++ [e])
   end.
 
 Fixpoint lookup_type (m : list (Z * stype)) (k : Z) : option stype :=
@@ -230,8 +239,8 @@ Definition append (c : cfg) (h : head) (a : appender) (flag : bool) (sid t : Z) 
     let v' :=
       if is_stale_float v then
         match lookup_type (a_types a1) sid with
-        | Some THist => VH 0
-        | Some TFHist => VFH 0
+        | Some THist | Some TCHist => VH 0
+        | Some TFHist | Some TCFHist => VFH 0
         | _ => v
         end
       else v in
